@@ -105,6 +105,7 @@ type FnCtx struct {
 	assumptionsUsed map[string]bool
 	quantN int
 	letDefs []LetDef
+	loopGhost map[string]*Term
 	qdepth int
 	log *writeLog
 	dry int
